@@ -77,5 +77,63 @@ Proof. induction fuel as [|f IH]; intros d i t r H m Hm Hdm; [discriminate|]. cb
     injection H as <- _. cbn [tdepth].
     destruct (seq_depth fx d f (fun i t r H => IH (S d) i t r H) f _ ts Es m Hm ltac:(lia)) as [Hd|Hd]; [|subst ts]; cbn; [rewrite Nat.add_succ_r in Hd; exact Hd|lia].
   - injection H as <- _. cbn. lia. Qed.
+
+(* C11, the limit rejects nothing it should accept: whatever the parser without a limit returns, the parser with limit m returns too,
+   provided the tree's nesting fits (constructed levels at depths d .. d + tdepth t - 1, all <= m) *)
+Definition nolim (b : bool) := {| fix3 := b; limit := None |}.
+Definition lim (b : bool) (m : nat) := {| fix3 := b; limit := Some m |}.
+Lemma tdepth_child t ts : In t ts -> (tdepth t <= fold_right (fun t acc => Nat.max (tdepth t) acc) 0 ts)%nat.
+Proof. induction ts as [|x ts IH]; cbn [In fold_right]; [intros []|]. intros [->|H]; [lia|]. specialize (IH H). lia. Qed.
+Lemma seq_transparent b m f d d0 :
+  (forall i t r, parse_tag' (nolim b) d0 f i = POk (t, r) -> (tdepth t + d <= S m)%nat -> parse_tag' (lim b m) d f i = POk (t, r)) ->
+  forall g c ts, seq_loop' (parse_tag' (nolim b) d0 f) g c = POk ts -> (forall t, In t ts -> (tdepth t + d <= S m)%nat) ->
+  seq_loop' (parse_tag' (lim b m) d f) g c = POk ts.
+Proof.
+  intros H. induction g as [|g IH]; intros c ts Hs Hd; destruct c as [|x c]; cbn [seq_loop'] in *; try discriminate; try assumption.
+  destruct (parse_tag' (nolim b) d0 f (x :: c)) as [[t c']| | |] eqn:E; try discriminate.
+  destruct (seq_loop' (parse_tag' (nolim b) d0 f) g c') as [ts'| | |] eqn:E'; try discriminate. injection Hs as <-.
+  rewrite (H _ _ _ E) by (apply Hd; now left). rewrite (IH _ _ E') by (intros t' Ht'; apply Hd; now right). reflexivity.
+Qed.
+Theorem c11_limit_transparent b m : forall fuel d d0 i t r,
+  parse_tag' (nolim b) d0 fuel i = POk (t, r) -> (tdepth t + d <= S m)%nat -> parse_tag' (lim b m) d fuel i = POk (t, r).
+Proof.
+  induction fuel as [|f IH]; intros d d0 i t r H Hd; [discriminate|]. cbn [parse_tag'] in *. destruct i as [|b0 i1]; [discriminate|].
+  destruct (parse_header b0) as [[cls pc] id]. destruct (parse_length i1) as [[len i2]| | |]; try discriminate.
+  destruct (N.of_nat (length i2) <? len); [discriminate|]. destruct pc; [|exact H].
+  cbn [limit fix3 nolim lim] in *.
+  destruct (seq_loop' (parse_tag' (nolim b) (S d0) f) f (firstn (N.to_nat len) i2)) as [ts| | |] eqn:Es; try discriminate; [|destruct b; discriminate].
+  injection H as <- <-. cbn [tdepth] in Hd.
+  destruct (Nat.ltb_spec m d); [lia|].
+  rewrite (seq_transparent b m f (S d) (S d0) (fun i t r E Ht => IH (S d) (S d0) i t r E Ht) f _ ts Es).
+  - reflexivity.
+  - intros t Ht. pose proof (tdepth_child t ts Ht). lia.
+Qed.
+Lemma seq_fix3 f d : (forall i x, parse_tag' (nolim false) d f i = POk x -> parse_tag' (nolim true) d f i = POk x) ->
+  forall g c ts, seq_loop' (parse_tag' (nolim false) d f) g c = POk ts -> seq_loop' (parse_tag' (nolim true) d f) g c = POk ts.
+Proof.
+  intros H. induction g as [|g IH]; intros c ts Hs; destruct c as [|x c]; cbn [seq_loop'] in *; try discriminate; try assumption.
+  destruct (parse_tag' (nolim false) d f (x :: c)) as [[t c']| | |] eqn:E; try discriminate.
+  destruct (seq_loop' (parse_tag' (nolim false) d f) g c') as [ts'| | |] eqn:E'; try discriminate. injection Hs as <-.
+  now rewrite (H _ _ E), (IH _ _ E').
+Qed.
+Theorem c11_fix3_transparent : forall fuel d i x, parse_tag' (nolim false) d fuel i = POk x -> parse_tag' (nolim true) d fuel i = POk x.
+Proof.
+  induction fuel as [|f IH]; intros d i x H; [discriminate|]. cbn [parse_tag'] in *. destruct i as [|b0 i1]; [discriminate|].
+  destruct (parse_header b0) as [[cls pc] id]. destruct (parse_length i1) as [[len i2]| | |]; try discriminate.
+  destruct (N.of_nat (length i2) <? len); [discriminate|]. destruct pc; [|exact H]. cbn [limit fix3 nolim] in *.
+  destruct (seq_loop' (parse_tag' (nolim false) (S d) f) f (firstn (N.to_nat len) i2)) as [ts| | |] eqn:Es; try discriminate.
+  now rewrite (seq_fix3 f (S d) (IH (S d)) f _ ts Es).
+Qed.
+(* both repairs together: every result of the parser as it is today whose tree fits the limit is also the result of the repaired parser *)
+Corollary c11_repairs_reject_nothing_valid m fuel i t r :
+  parse_tag fuel i = POk (t, r) -> (tdepth t <= S m)%nat -> parse_tag' (lim true m) 0 fuel i = POk (t, r).
+Proof.
+  intros H Hd. rewrite <- (as_is_agrees fuel 0 i) in H. apply (c11_limit_transparent true m fuel 0%nat 0%nat); [|lia].
+  now apply c11_fix3_transparent.
+Qed.
+(* with C07's completeness: every encoding of a tree that fits the limit is parsed by the limited parser exactly as by the unlimited one,
+   so the repair changes behaviour only on inputs nested deeper than the limit (and on the wedge inputs of F3) *)
 Print Assumptions c11_no_wedge.
 Print Assumptions c11_depth_bounded.
+Print Assumptions c11_limit_transparent.
+Print Assumptions c11_repairs_reject_nothing_valid.
